@@ -138,7 +138,7 @@ def obj_of(system, mom, vals):
 
 
 NUMPY_LAYOUTS = ["np()", "np(3)", "np(2,2)", "np(3)-int", "np(0)", "np(1)", "np(2,1,2)", "np(3)-spacelike", "np(3)-strided", "np(3)-readonly", "np(3,1)", "np(1,3)"]
-AWK_LAYOUTS = ["ak-flat", "ak-jagged", "ak-nested", "ak-option", "ak-record", "ak-rawzip", "ak-regular", "ak-flat-int", "ak-empty", "ak-one", "ak-jagged-spacelike", "ak-record-hits", "ak-record-label", "ak-masked", "ak-padnone", "ak-indexed"]
+AWK_LAYOUTS = ["ak-flat", "ak-jagged", "ak-nested", "ak-option", "ak-record", "ak-rawzip", "ak-regular", "ak-flat-int", "ak-empty", "ak-one", "ak-jagged-spacelike", "ak-record-hits", "ak-record-label", "ak-masked", "ak-padnone", "ak-indexed", "ak-record-at2"]
 
 
 def nest(layout):
@@ -148,7 +148,7 @@ def nest(layout):
             "ak-option": [["E", None], None, ["E"]], "ak-record": "E", "object": "E", "ak-rawzip": [["E", "E"], [], ["E"]], "ak-regular": [["E", "E", "E"], ["E", "E", "E"]], "np(3)-int": ["E", "E", "E"], "ak-flat-int": ["E", "E", "E"],
             "np(0)": [], "np(1)": ["E"], "np(2,1,2)": [[["E", "E"]], [["E", "E"]]], "ak-empty": [], "ak-one": [["E"]],
             "np(3)-spacelike": ["E", "E", "E"], "ak-jagged-spacelike": [["E", "E"], [], ["E"]], "ak-record-hits": "E", "ak-record-label": "E", "np(3)-strided": ["E", "E", "E"], "np(3)-readonly": ["E", "E", "E"], "np(3,1)": [["E"], ["E"], ["E"]], "np(1,3)": [["E", "E", "E"]],
-            "ak-masked": [["E", "E"], None, ["E"]], "ak-padnone": [["E", "E", None], [None, None, None], ["E", None, None]], "ak-indexed": [["E"], ["E", "E"], []]}[layout]
+            "ak-record-at2": "E", "ak-masked": [["E", "E"], None, ["E"]], "ak-padnone": [["E", "E", None], [None, None, None], ["E", None, None]], "ak-indexed": [["E"], ["E", "E"], []]}[layout]
 
 
 def fill(struct, f):
@@ -207,6 +207,11 @@ def build(layout, system, mom, rng, extras=False):
         arr = vector.Array([{key(n): struct[n] for n in names}])
         arr = ak.with_field(arr, ak.Array([[21, 22]]), "hits") if layout.endswith("hits") else ak.with_field(arr, ak.Array(["mu"]), "label")
         return arr[0], struct
+    if layout == "ak-record-at2":
+        # a record picked out of the middle / end of a longer array (layout offset > 0), with extra fields that differ from row to row
+        rows = [one(system, rng), one(system, rng), struct]
+        recs = [dict({key(n): e[n] for n in names}, **({"charge": i - 1, "weight": 0.5 * (i + 1)} if extras else {})) for i, e in enumerate(rows)]
+        return vector.Array(recs)[2], struct
     if layout == "ak-record":
         rec = {key(n): struct[n] for n in names}
         if extras:
